@@ -1,1 +1,154 @@
 //! Verification hook: public wrapper of the RPC service (ping / consensus servers and clients).
+//!
+//! Runs the crate-private generic `rpc::Service` / `rpc::Server::serve` / `mux::StreamQueue` code over a
+//! caller-supplied transport: a server for a test RPC that carries ping payloads on the ping capability
+//! (`VRpc<N>`: same shape as `rpc::ping::Rpc`, in-flight limit `N`) whose handler only records when it
+//! was invoked, and a client that opens calls as fast as the protocol lets it (no client-side rate limit,
+//! an arbitrary advertised number of streams). No behaviour of the crate is changed.
+use std::{
+    collections::BTreeMap,
+    sync::{
+        atomic::{AtomicUsize, Ordering},
+        Arc, Mutex,
+    },
+};
+
+use zksync_concurrency::{ctx, io, limiter, scope, sync, time};
+use zksync_protobuf::kB;
+
+use crate::{frame, mux, rpc};
+
+/// Test RPC on the ping capability with in-flight limit `N` (`VRpc<1>` has the shape of `rpc::ping::Rpc`).
+pub struct VRpc<const N: u32>;
+
+impl<const N: u32> rpc::Rpc for VRpc<N> {
+    const CAPABILITY: rpc::Capability = rpc::Capability::Ping;
+    const INFLIGHT: u32 = N;
+    const METHOD: &'static str = "verif";
+    type Req = rpc::ping::Req;
+    type Resp = rpc::ping::Resp;
+}
+
+/// `rpc::ping::Rpc::INFLIGHT`, `rpc::consensus::Rpc::INFLIGHT`, `rpc::get_block::Rpc::INFLIGHT`.
+pub const INFLIGHT_PING: u32 = <rpc::ping::Rpc as rpc::Rpc>::INFLIGHT;
+/// See `INFLIGHT_PING`.
+pub const INFLIGHT_CONSENSUS: u32 = <rpc::consensus::Rpc as rpc::Rpc>::INFLIGHT;
+/// See `INFLIGHT_PING`.
+pub const INFLIGHT_GET_BLOCK: u32 = <rpc::get_block::Rpc as rpc::Rpc>::INFLIGHT;
+
+/// What the recording handler observes.
+#[derive(Default)]
+pub struct Probe {
+    /// `ctx.now()` at every handler invocation.
+    pub starts: Mutex<Vec<time::Instant>>,
+    /// Handlers currently running.
+    pub running: AtomicUsize,
+    /// Maximum of `running` ever observed.
+    pub max_running: AtomicUsize,
+    /// Handlers that returned.
+    pub done: AtomicUsize,
+    /// If set, every handler takes (and forgets) one permit of this semaphore before it returns.
+    pub gate: Option<Arc<sync::Semaphore>>,
+}
+
+struct Recorder(Arc<Probe>);
+
+#[async_trait::async_trait]
+impl<const N: u32> rpc::Handler<VRpc<N>> for Recorder {
+    fn max_req_size(&self) -> usize {
+        kB
+    }
+    async fn handle(&self, ctx: &ctx::Ctx, req: rpc::ping::Req) -> anyhow::Result<rpc::ping::Resp> {
+        self.0.starts.lock().unwrap().push(ctx.now());
+        let r = self.0.running.fetch_add(1, Ordering::SeqCst) + 1;
+        self.0.max_running.fetch_max(r, Ordering::SeqCst);
+        if let Some(gate) = &self.0.gate {
+            if let Ok(permit) = sync::acquire(ctx, gate).await {
+                permit.forget();
+            }
+        }
+        self.0.running.fetch_sub(1, Ordering::SeqCst);
+        self.0.done.fetch_add(1, Ordering::SeqCst);
+        Ok(rpc::ping::Resp(req.0))
+    }
+}
+
+/// `rpc::Service::new().add_server::<VRpc<N>>(ctx, recorder, rate).run(ctx, transport)`.
+pub async fn serve<const N: u32, S: io::AsyncRead + io::AsyncWrite + Send>(
+    ctx: &ctx::Ctx,
+    rate: limiter::Rate,
+    transport: S,
+    probe: Arc<Probe>,
+) -> Result<(), String> {
+    rpc::Service::new()
+        .add_server::<VRpc<N>>(ctx, Recorder(probe), rate)
+        .run(ctx, transport)
+        .await
+        .map_err(|e| format!("{e:#}"))
+}
+
+/// What the greedy client reports.
+#[derive(Default)]
+pub struct ClientProbe {
+    /// Calls that received a response.
+    pub done: AtomicUsize,
+    /// Transient streams opened.
+    pub opened: AtomicUsize,
+    /// If set, every call takes (and forgets) one permit after its stream is open and before it sends the
+    /// request (a client that sits on open streams and then fires all its requests at once).
+    pub req_gate: Option<Arc<sync::Semaphore>>,
+    /// If set, every call takes (and forgets) one permit before it opens its stream (a client that leaves the
+    /// server's OPEN unanswered for a while).
+    pub open_gate: Option<Arc<sync::Semaphore>>,
+}
+
+/// A client of the ping capability that advertises `max_streams` streams, has no rate limit of its own
+/// (`limiter::Rate::INF`) and keeps `parallel` calls going forever: `StreamQueue::open`, send one request,
+/// close the write half, read the response. Runs `mux::Mux::run` on `transport` until `ctx` is canceled.
+pub async fn greedy_client<S: io::AsyncRead + io::AsyncWrite + Send>(
+    ctx: &ctx::Ctx,
+    transport: S,
+    max_streams: u32,
+    parallel: usize,
+    probe: Arc<ClientProbe>,
+) -> Result<(), String> {
+    let queue = mux::StreamQueue::new(ctx, max_streams, limiter::Rate::INF);
+    let mux = mux::Mux {
+        cfg: Arc::new(rpc::MUX_CONFIG.clone()),
+        accept: [(rpc::Capability::Ping.id(), queue.clone())].into(),
+        connect: BTreeMap::default(),
+    };
+    let res: Result<(), mux::RunError> = scope::run!(ctx, |ctx, s| async {
+        for _ in 0..parallel {
+            s.spawn_bg::<()>(async {
+                loop {
+                    if let Some(gate) = &probe.open_gate {
+                        sync::acquire(ctx, gate).await?.forget();
+                    }
+                    let mut stream = queue.open(ctx).await?;
+                    probe.opened.fetch_add(1, Ordering::SeqCst);
+                    if let Some(gate) = &probe.req_gate {
+                        sync::acquire(ctx, gate).await?.forget();
+                    }
+                    let req = rpc::ping::Req([7u8; 32]);
+                    if frame::mux_send_proto(ctx, &mut stream.write, &req)
+                        .await
+                        .is_err()
+                    {
+                        continue;
+                    }
+                    drop(stream.write);
+                    if frame::mux_recv_proto::<rpc::ping::Resp>(ctx, &mut stream.read, kB)
+                        .await
+                        .is_ok()
+                    {
+                        probe.done.fetch_add(1, Ordering::SeqCst);
+                    }
+                }
+            });
+        }
+        mux.run(ctx, transport).await
+    })
+    .await;
+    res.map_err(|e| format!("{e:#}"))
+}
